@@ -118,6 +118,25 @@ pub fn observe(_ctx: &Ctx, st: &mut Stats, rj: &RJob, widths: Option<&Widths>) {
             return;
         }
     };
+    // a quarter of the symbols are also rendered from a hand-assembled copy (QRCode::default(size) + the same
+    // modules, no version / level / mask / mode fields): the document must be the same
+    if rj.job.seed % 4 == 2 {
+        let h = adapter::hand_assembled(&qr);
+        match adapter::guarded(|| (rj.spec.svg_builder().to_str(&h), rj.spec.svg_builder().to_str(&qr))) {
+            Ok((a, b)) => {
+                if a != b {
+                    let at = a.bytes().zip(b.bytes()).position(|(x, y)| x != y).unwrap_or(a.len().min(b.len()));
+                    st.violation(ID, "hand-assembled-symbol-renders-differently", format!("a QRCode assembled from size and modules alone (no version/level/mask/mode fields) renders differently from the built one at byte {at}: ...{}... vs ...{}... [spec {}]", a.get(at.saturating_sub(30)..(at + 40).min(a.len())).unwrap_or(""), b.get(at.saturating_sub(30)..(at + 40).min(b.len())).unwrap_or(""), rj.spec.describe()), rj.to_json());
+                    return;
+                }
+                st.count("hand_assembled_symbols_rendered_identically", 1);
+            }
+            Err(p) => {
+                st.violation(ID, "render-panic", format!("rendering a hand-assembled QRCode panicked: {p}"), rj.to_json());
+                return;
+            }
+        }
+    }
     let svg = match adapter::guarded(|| rj.spec.svg_builder().to_str(&qr)) {
         Ok(s) => s,
         Err(p) => {
